@@ -297,7 +297,8 @@ static Outcome compare_route(Case const &c, Log const &log, bool is404, bool has
     }
     if (!log.ran.empty()) {
         LogEntry const &e = log.ran[0];
-        return bad("dispatch:partial-or-wrong-match-accepted", what + ": ran " + show_handler(c, e.node, e.idx) + show_args(e.args) + " although no handler's method and pattern match the entire string (sub-url '" + vr::show(exp.sub, 60) + "' at node " + std::to_string(exp.node) + ")");
+        // the model's 404 comes from node exp.node; a handler of another node ran => the request was routed past the first matching mount/handler
+        return bad(e.node == exp.node ? "dispatch:partial-or-wrong-match-accepted" : "dispatch:not-first-match", what + ": ran " + show_handler(c, e.node, e.idx) + show_args(e.args) + " although no handler's method and pattern match the entire string (sub-url '" + vr::show(exp.sub, 60) + "' at node " + std::to_string(exp.node) + ")");
     }
     if (has_ctx && !is404) return bad("dispatch:no-404-when-nothing-matches", what + ": nothing matched but the response status is not 404");
     return ok();
@@ -509,7 +510,7 @@ static Outcome p_mapper(Case const &c) {
         VR.cls("mapper.target_depth" + std::to_string(ti.depth[e.t_node]));
         VR.cls("mapper.arity" + std::to_string(pos.size()));
         if (ti.depth[e.t_node] >= 2 || dotdot || nkw) VR.nontrivial(vr::fnv(what, ch));
-        if (VR.want_sample()) VR.sample(what + " = '" + vr::show(e.url, 80) + "' -> " + show_handler(c, exp.node, exp.idx) + show_args(exp.args));
+        if (!g_quiet && VR.want_sample()) VR.sample(what + " = '" + vr::show(e.url, 80) + "' -> " + show_handler(c, exp.node, exp.idx) + show_args(exp.args));
     }
     return ok();
 }
